@@ -60,8 +60,9 @@ Fixpoint sequence {A} (l : list (res A)) : res (list A) :=
   | RErr e :: _ => RErr e
   end.
 
-(* inject_c2pa (xmp_data = None) *)
-Fixpoint rinject (fuel : nat) (file data : bytes) (pos : N) (id : bytes) (ln : N) (depth : nat)
+(* inject_c2pa (xmp_data = None); [strip_c2pa]: drop an existing C2PA chunk even when the store is empty
+   (removal, fix eec3bf439) *)
+Fixpoint rinject (fuel : nat) (file data : bytes) (strip_c2pa : bool) (pos : N) (id : bytes) (ln : N) (depth : nat)
   : res rchunk :=
   match fuel with
   | O => RErr EInvalidAsset
@@ -76,19 +77,21 @@ Fixpoint rinject (fuel : nat) (file data : bytes) (pos : N) (id : bytes) (ln : N
           match riter (length file) file (pos + 12) (pos + 4 + ln) with
           | None => RErr EIoError
           | Some children =>
-            let strip_it := is_riff && negb (match data with [] => true | _ => false end) in
+            let nonempty := negb (match data with [] => true | _ => false end) in
+            let strip_it := is_riff && (strip_c2pa || nonempty) in
+            let add_it := is_riff && nonempty in
             let children := if strip_it
                             then filter (fun c => negb (beq (snd (fst c)) C2PA_CHUNK_ID)) children
                             else children in
-            rbind (sequence (map (fun c => rinject f file data (fst (fst c)) (snd (fst c)) (snd c) (S depth))
+            rbind (sequence (map (fun c => rinject f file data strip_c2pa (fst (fst c)) (snd (fst c)) (snd c) (S depth))
                                  children))
-                  (fun cs => ROk (RList id ty (if strip_it then cs ++ [RData C2PA_CHUNK_ID data] else cs)))
+                  (fun cs => ROk (RList id ty (if add_it then cs ++ [RData C2PA_CHUNK_ID data] else cs)))
           end
       else if beq id SEQT_ID then
         match riter (length file) file (pos + 12) (pos + 4 + ln) with
         | None => RErr EIoError
         | Some children =>
-          rbind (sequence (map (fun c => rinject f file data (fst (fst c)) (snd (fst c)) (snd c) (S depth))
+          rbind (sequence (map (fun c => rinject f file data strip_c2pa (fst (fst c)) (snd (fst c)) (snd c) (S depth))
                                children))
                 (fun cs => ROk (RSeqt id cs))
         end
@@ -112,21 +115,24 @@ Fixpoint avix_copy (fuel : nat) (file : bytes) (pos : N) : res bytes :=
          end
   end.
 
-(* [avi_literal]: the handler was created for the format string "avi" or "video/avi" *)
-Definition riff_write (avi_literal : bool) (a b : bytes) : res bytes :=
+(* write_cai_impl.  [avi_literal]: the handler was created for one of the registered AVI format strings
+   (avi, video/avi, video/msvideo, video/x-msvideo, application/x-troff-msvideo) *)
+Definition riff_write_impl (avi_literal : bool) (a b : bytes) (strip_c2pa : bool) : res bytes :=
   match rhead a 0 with
   | None => RErr EIoError
   | Some (id, ln) =>
     if negb (beq id RIFF_ID) then RErr EInvalidAsset
     else
-      rbind (rinject (S (length a)) a b 0 id ln 0) (fun c =>
+      rbind (rinject (S (length a)) a b strip_c2pa 0 id ln 0) (fun c =>
         if avi_literal
         then rbind (avix_copy (S (length a)) a (8 + ln)) (fun x => ROk (renc c ++ x))
         else ROk (renc c))
   end.
 
-(* remove_cai_store_from_stream is write_cai with an empty store, which keeps the C2PA chunk *)
-Definition riff_remove (avi_literal : bool) (a : bytes) : res bytes := riff_write avi_literal a [].
+Definition riff_write (avi_literal : bool) (a b : bytes) : res bytes := riff_write_impl avi_literal a b false.
+
+(* remove_cai_store_from_stream: write_cai_impl with an empty store and strip_c2pa = true *)
+Definition riff_remove (avi_literal : bool) (a : bytes) : res bytes := riff_write_impl avi_literal a [] true.
 
 (* the lazy search of read_cai / get_manifest_pos over the children of the first chunk *)
 Fixpoint rfind_c2pa (fuel : nat) (file : bytes) (cur e : N) : res (option (N * N)) :=
@@ -196,8 +202,7 @@ Definition riff_format : format :=
          (fun l => length (select false l (map is_c2pa_chunk l))) renc.
 
 (* inject_c2pa at the top level, on already parsed children without nested RIFF-id chunks *)
-Definition riff_write_children (cs : list rchunk) (b : bytes) : list rchunk :=
-  match b with
-  | [] => cs
-  | _ => filter (fun c => negb (is_c2pa_chunk c)) cs ++ [RData C2PA_CHUNK_ID b]
-  end.
+Definition riff_write_children (strip_c2pa : bool) (cs : list rchunk) (b : bytes) : list rchunk :=
+  let nonempty := negb (match b with [] => true | _ => false end) in
+  let kept := if strip_c2pa || nonempty then filter (fun c => negb (is_c2pa_chunk c)) cs else cs in
+  if nonempty then kept ++ [RData C2PA_CHUNK_ID b] else kept.
